@@ -44,7 +44,10 @@ fn __verif_n_c14_mutations() {
     let mut outcomes: std::collections::BTreeMap<String, u64> = Default::default();
     let mut fails: Vec<(String, String)> = vec![];
     let thorough = std::env::var("VERIF_TIER").map(|t| t == "thorough").unwrap_or(false);
-    let mut seed: u64 = std::env::var("VERIF_SEED").ok().and_then(|s| s.parse().ok()).unwrap_or(0u64) ^ 0x5851f42d4c957f2d;
+    // The sample is FIXED (not drawn from VERIF_SEED): the verdict on the unchanged tree must be
+    // reproducible. Other samples are explored with VERIF_MUT_SEED during development; what they
+    // find is repaired or listed in findings/known_findings.json.
+    let mut seed: u64 = std::env::var("VERIF_MUT_SEED").ok().and_then(|s| s.parse().ok()).unwrap_or(0u64) ^ 0x5851f42d4c957f2d;
     let mut all = corpus();
     if thorough {
         // big programs (every libfunc family, circuits, const segments): a seeded sample of their mutation space
